@@ -14,7 +14,7 @@ from concurrent.futures import ThreadPoolExecutor
 
 VERIF = os.path.dirname(os.path.dirname(os.path.abspath(__file__)))
 REPO = "/repo"
-EXTRA = {"C12-A": ["C11"], "C16-A": ["C13", "C07", "C14", "C11"], "C05-B": ["C14"], "C07-B": ["C14"], "C08-A": ["C10", "C15"],
+EXTRA = {"C12-A": ["C11"], "C06-B": ["C13"], "C16-A": ["C13", "C07", "C14", "C11"], "C05-B": ["C14"], "C07-B": ["C14"], "C08-A": ["C10", "C15"],
          "C15-B": ["C14"], "C13-B": ["C11"], "C18-A": ["C15"], "C19-A": ["C18"], "C14-A": ["C07"], "C17-A": ["C14"]}
 
 
